@@ -219,7 +219,13 @@ def run_one(ck, prog):
             ck.ob("C03.7", "calloc|zeroing-skipped-only-for-null-or-exempt-blocks", not extra, fn=cal["path"], site=ctx.site(wb[0]),
                   detail=f"the zeroing is guarded by a further condition ({'; '.join(show(f[1]) if f[0] == 'truth' else f'{show(f[2])} {f[1]} {show(f[3])}' for f in extra)}): a block carved from recycled memory comes back dirty whenever that condition fails")
             rets = list(ctx.ret_expr().values())
-            ck.ob("C03.7", "calloc|returns-the-block", len(rets) >= 1 and all(is_direct_use(r, mal[0]) for r in rets), fn=cal["path"], detail="calloc must return malloc's block")
+            def all_defs_direct(e, depth=0):
+                e2 = strip_casts(e)
+                if isinstance(e2, tuple) and e2 and e2[0] == "var" and depth < 6:
+                    ds = ctx.prov.expand(e2)
+                    return bool(ds) and all(all_defs_direct(d, depth + 1) for d in ds)
+                return is_direct_use(e, mal[0])
+            ck.ob("C03.7", "calloc|returns-the-block", len(rets) >= 1 and all(all_defs_direct(r) for r in rets), fn=cal["path"], detail="calloc must return malloc's block")
     cmc = prog.fns.get(DL + "calloc_must_clear")
     if ck.anchor("C03.7", "calloc_must_clear", cmc):
         c2 = prog.ctx(cmc)
